@@ -84,6 +84,8 @@ class FieldElement:
     def __truediv__(self, other):
         if self.prime != other.prime:
             raise TypeError("Cannot add two numbers in different Fields")
+        if other.num == 0:
+            raise ZeroDivisionError("division by zero in a finite field")
         # self.num and other.num are the actual values
         num = (self.num * pow(other.num, self.prime - 2, self.prime)) % self.prime
         # self.prime is what you'll need to mod against
@@ -166,6 +168,9 @@ class Point:
 
         # Case 3: self.x == other.x, self.y == other.y
         else:
+            # the tangent is vertical when y == 0, result is point at infinity
+            if self.y == 0 * self.x:
+                return self.__class__(None, None, self.a, self.b)
             # Formula (x3,y3)=(x1,y1)+(x1,y1)
             # s=(3*x1**2+a)/(2*y1)
             s = (3 * self.x**2 + self.a) / (2 * self.y)
